@@ -54,6 +54,7 @@ func vrtSFForget(g *singleflight.Group, key string) {
 type vrtRefreshUp struct {
 	inFlight, maxInFlight, refreshes int
 	release                          bool
+	bad                              int // what a refresh gets: 0 a good answer, 1 a truncated one, 2 REFUSED, 3 a zero-TTL answer
 }
 
 func (u *vrtRefreshUp) Exec(ctx context.Context, qCtx *query_context.Context) error {
@@ -70,7 +71,16 @@ func (u *vrtRefreshUp) Exec(ctx context.Context, qCtx *query_context.Context) er
 	vrtAwait(func() bool { return u.release }, func() { u.inFlight-- })
 	r := new(dns.Msg)
 	r.SetReply(qCtx.Q())
-	r.Answer = []dns.RR{&dns.A{Hdr: dns.RR_Header{Name: "a.", Rrtype: dns.TypeA, Class: dns.ClassINET, Ttl: 60}, A: []byte{192, 0, 2, 2}}}
+	ttl := uint32(60)
+	switch u.bad {
+	case 1:
+		r.Truncated = true
+	case 2:
+		r.Rcode = dns.RcodeRefused
+	case 3:
+		ttl = 0
+	}
+	r.Answer = []dns.RR{&dns.A{Hdr: dns.RR_Header{Name: "a.", Rrtype: dns.TypeA, Class: dns.ClassINET, Ttl: ttl}, A: []byte{192, 0, 2, 2}}}
 	qCtx.SetResponse(r)
 	return nil
 }
@@ -79,7 +89,7 @@ func (u *vrtRefreshUp) Exec(ctx context.Context, qCtx *query_context.Context) er
 // stale answer (TTL 5, its own ID) and at most one background refresh is in flight.
 func vrtHarness_C05_lazyRefresh() {
 	c := NewCache(&Args{Size: 1024, LazyCacheTTL: 86400}, Opts{})
-	up := &vrtRefreshUp{}
+	up := &vrtRefreshUp{bad: vrtChoice(4)}
 	next := sequence.NewChainWalker([]*sequence.ChainNode{{E: up}}, nil)
 	mk := func(id uint16) *query_context.Context {
 		q := new(dns.Msg)
@@ -123,5 +133,11 @@ func vrtHarness_C05_lazyRefresh() {
 	qc := mk(7)
 	vrtAssert("no error", c.Exec(context.Background(), qc, next) == nil)
 	a := qc.R()
-	vrtAssert("after the refresh the new answer is served from cache", vrtAnd(a != nil, a != nil && a.Answer[0].(*dns.A).A[3] == 2, up.refreshes == 1))
+	if up.bad == 0 {
+		vrtAssert("after the refresh the new answer is served from cache", vrtAnd(a != nil, a != nil && a.Answer[0].(*dns.A).A[3] == 2, up.refreshes == 1))
+	} else {
+		vrtCover("refresh got a reply that must not be stored", true)
+		// truncated, REFUSED and zero-TTL replies are never stored - by a refresh either: the stale entry stays
+		vrtAssert("a reply that must not be stored does not replace the entry", vrtAnd(a != nil, a != nil && !a.Truncated && a.Rcode == dns.RcodeSuccess && len(a.Answer) == 1 && a.Answer[0].(*dns.A).A[3] == 1 && a.Answer[0].Header().Ttl == 5))
+	}
 }
